@@ -161,7 +161,7 @@ def bond_order_table(eng, res, fi):
             if isinstance(t, ast.Attribute) and t.attr == "bond_type" and isinstance(t.value, ast.Name) and t.value.id == "self":
                 p = getattr(n, "_parent", None)
                 if isinstance(p, ast.If) and n in p.body and len(p.body) == 1 and not p.orelse:
-                    tst = p.test
+                    tst = eng.flow(fi).cfg.test_of(p)
                     if (
                         isinstance(tst, ast.Compare)
                         and len(tst.ops) == 1
